@@ -166,3 +166,11 @@ Proof.
   - apply Qcmult_plus_distr_l.
   - now apply Qcmult_inv_r.
 Qed.
+
+(** sign and zero tests on Qc (used to instantiate [x < 0.0] and an exact [allclose(x, 0)]) *)
+Definition Qc_neg (x : Qc) : bool := Z.ltb (Qnum (this x)) 0.
+Definition Qc_is0 (x : Qc) : bool := Z.eqb (Qnum (this x)) 0.
+Lemma Qc_is0_not_neg : forall x, Qc_is0 x = true -> Qc_neg x = false.
+Proof.
+  intros x H. unfold Qc_is0, Qc_neg in *. apply Z.eqb_eq in H. rewrite H. reflexivity.
+Qed.
